@@ -275,3 +275,28 @@ def analyse(cfg):
         out['verdict'] = 'either'
         out['why'] = 'provided names depend on each other cyclically'
     return out
+
+
+def inner_view(cfg):
+    """The embedded application on its own (it is constructed first, before it is embedded)."""
+    import copy
+    c = copy.deepcopy(cfg)
+    c['mws'] = [m for m in c['mws'] if m['level'] != 'outer']
+    c['outer_res'] = []
+    c['embedded'] = False
+    return c
+
+
+def analyse_all(cfg):
+    """Construction happens inside-out: the embedded application alone first, then the serving one.
+    The first view that is not accepted decides; wiring is that of the serving view."""
+    if not (cfg.get('embedded') or any(m['level'] == 'outer' for m in cfg['mws'])):
+        return analyse(cfg)
+    inner = analyse(inner_view(cfg))
+    if inner['verdict'] == 'reject':
+        return inner
+    outer = analyse(cfg)
+    if outer['verdict'] == 'accept' and inner['verdict'] == 'either':
+        outer['verdict'] = 'either'
+        outer['why'] = inner['why']
+    return outer
